@@ -44,6 +44,28 @@ CLAIMS["C13"] = (
     TRUSTED + "Reference operator semantics typed into the rule (DESIGN.md App. A).",
     "DESIGN.md §4 C13")
 
+CLAIMS["C16"] = (
+    "static analysis: finite-map extraction of rank tables (order, compare, scalar rank matrix, vector order) from THIR; "
+    "MIR dominance of the Ok result by the unique-winner test; THIR shape of the symmetric tournament",
+    "Decides the necessary structural conditions of order-independent overload resolution: the result is built only "
+    "when exactly one candidate survives, ambiguity is an error, ranks are a strict order with Exact least, no inexact "
+    "conversion is ranked Exact (56 pairs), compare is the order's three-way comparison (36 pairs), the tournament "
+    "compares every candidate against every other over the whole vector with (candidate, against) operand order, the "
+    "tie-break is a minimum over all survivors. Does not decide order-independence for all candidate sets as such.",
+    TRUSTED + "Reference rank order typed into the rule (DESIGN.md App. A).",
+    "DESIGN.md §4 C16")
+CLAIMS["C03"] = (
+    "static analysis: MIR dominance of assignment / increment node construction by the const and lvalue guards; "
+    "finite-map extraction of the value-category and parameter-modifier tables; find=>apply pairing of every implicit "
+    "conversion site; totality of the IR typing rules",
+    "Decides the guards and conversion points the property names: all 11 assignment operators and 4 ++/-- operators "
+    "are built only after the const / lvalue / bool rejections, ImplicitConversion::find refuses rvalue->lvalue and "
+    "const/volatile drops on lvalues, out/inout demand lvalues, every conversion looked up is applied (15 sites), the "
+    "operands of binary nodes come from apply, get_type / get_return_type are total. Does not decide well-typedness of "
+    "every expression of every accepted program.",
+    TRUSTED + "Rust move semantics: an expression moved into apply cannot also be stored unconverted.",
+    "DESIGN.md §4 C03")
+
 NOT_YET = "rules for this property are not built yet in this round (see DESIGN.md §10 build order); no claim is made"
 
 
